@@ -93,6 +93,9 @@ and parse_cmd (toks : string list) : cmd * string list =
   | "KF" :: sg :: ls :: r -> (CKeyFlag (sg = "+", ints_of_field ls), r)
   | "KS" :: k :: r -> (CKeyShift (z_of_string k), r)
   | "TK" :: k :: r -> (CTrackKey (z_of_string k), r)
+  | "U" :: ms :: "N" :: b :: a :: n :: l :: g :: v :: t :: o :: r ->
+      (* octave-once marks (1 = back-quote, -1 = double quote) in front of a lettered note *)
+      (COnce (ints_of_field ms, z_of_string b, z_of_string a, n = "1", olen_of l, oint g, oint v, oint t, oint o), r)
   | t :: _ -> raise (Bad ("cmd:" ^ t))
   | [] -> raise (Bad "cmd:eof")
 let string_of_notes (p : perf) : string =
@@ -164,7 +167,7 @@ let dispatch (fields : string list) : string =
         | TNoteN (no, l, q, v, tm, s) -> Printf.sprintf "M(%s,[%s],%s,%s,%s,%s)" (z no) (zl l) (z q) (z v) (z tm) (z s)
         | TRest (d, l) -> Printf.sprintf "R(%s,[%s])" (z d) (zl l)
         | TLength l -> Printf.sprintf "L[%s]" (zl l)
-        | TOctave v -> "O" ^ z v | TOctaveRel v -> "Or" ^ z v
+        | TOctave v -> "O" ^ z v | TOctaveRel v -> "Or" ^ z v | TOctaveOnce v -> "Oo" ^ z v
         | TVelocity (v, i) -> Printf.sprintf "V(%s,%s)" (z v) (z i) | TVelocityRel v -> "Vr" ^ z v
         | TQLen v -> "Q" ^ z v | TTiming v -> "T" ^ z v
         | TLoopBegin n -> "[" ^ z n | TLoopBreak -> ":" | TLoopEnd -> "]"
